@@ -297,6 +297,12 @@ def _invalid_values(kind):
         return [('zero', 0), ('zero_f', 0.0), ('neg', -1.5), ('nan', {'t': 'nan'}),
                 ('inf', {'t': 'inf'}), ('ninf', {'t': 'ninf'}),
                 ('str', 'abc'), ('none', None),
+                ('decimal_inf', {'t': 'exotic', 'v': 'decimal_inf'}),
+                ('decimal_ninf', {'t': 'exotic', 'v': 'decimal_ninf'}),
+                ('decimal_zero', {'t': 'exotic', 'v': 'decimal_zero'}),
+                ('decimal_neg', {'t': 'exotic', 'v': 'decimal_neg'}),
+                ('fraction_neg', {'t': 'exotic', 'v': 'fraction_neg'}),
+                ('fraction_zero', {'t': 'exotic', 'v': 'fraction_zero'}),
                 ('numeric_str', '5'), ('numeric_str_f', ' 2.5 '),
                 ('numeric_str_e', '1e2'),
                 ('numeric_bytes', {'t': 'bytes', 'v': '5'}),
@@ -389,8 +395,17 @@ def _mutated_pixcoord(how):
 
 def build_invalid(rec):
     if isinstance(rec, dict) and rec.get('t') == 'exotic':
+        import decimal
+        import fractions
         return {'complex': 1 + 2j, 'dict': {'a': 1}, 'set': {1, 2},
-                'object': object(), 'function': len, 'type': float}[rec['v']]
+                'object': object(), 'function': len, 'type': float,
+                # non-positive / non-finite numbers of other numeric types
+                'decimal_inf': decimal.Decimal('Infinity'),
+                'decimal_ninf': decimal.Decimal('-Infinity'),
+                'decimal_zero': decimal.Decimal('0'),
+                'decimal_neg': decimal.Decimal('-2.5'),
+                'fraction_neg': fractions.Fraction(-1, 2),
+                'fraction_zero': fractions.Fraction(0, 1)}[rec['v']]
     if isinstance(rec, dict) and rec.get('t') == 'bytes':
         return rec['v'].encode()
     if isinstance(rec, dict) and rec.get('t') == 'npstr':
